@@ -108,23 +108,33 @@ CLAIMED.update({
          'C09_order_with_final; kit Lemmas/InstOrd.lean): at most one restart / shutdown order is ever sent to the local Supervisor, it is sent in the very '
          'step that reaches FINAL (which the Master only decides once the Stopper is idle, a Slave once its Master has left the ending state), FINAL is never '
          'left and sends none. ' + CMD_TIE + ' The ending phase is also tied by a cluster stage: global lock-step of N real instances under restart / shutdown '
-         'requests, every order to a Supervisor compared at every step and judged (never two, only in FINAL).',
+         'requests, every order to a Supervisor compared at every step and judged (never two, only in FINAL), and by a free-running closed loop of real '
+         'instances with fake Supervisors (harness/c16free.py, ENDING scenario: restart / shutdown request then loss of a non-Master instance) whose quiet phase must '
+         'leave nobody in RESTARTING / SHUTTING_DOWN.',
     note='Partial: the ordering over whole executions is judged on the implementation by the monitor (known finding: '
          'higher-sequence-already-stopping-not-waited); the restart/shutdown clauses (order reaches the Master, exactly one Supervisor order per instance, '
          'FINAL after the Stopper is idle) are proved on the instance model for the at-most-one / FINAL part (that EVERY live instance eventually gets its order is liveness: judged on the cluster stage, not proved); the whole-cluster '
          'stop (Stopper.stop_applications: decreasing application stop_sequence) is generated and judged, with theorems C09_stop_all_apps / C09_application_pickup_highest; the '
-         'delivery of the Master\'s last publication while its own Supervisor goes down is a thread race outside the model. ' + CMD_TRUST,
+         'delivery of the Master\'s last publication while its own Supervisor goes down is a thread race outside the model; defect repaired: 13a5f42 (running failure '
+         'strategies triggered during the ending states restarted an application for ever, nobody reached FINAL; found by the free-running stage, outside the FSM model). ' + CMD_TRUST,
     technique='Lean 4 proofs on the Stopper decision functions + lock-step correspondence + Lean monitor on implementation traces',
     design='7 (C09)'),
  'C10': dict(
     text='Machine-checked proofs (Lean 4) of the give-up decisions for ALL states, counters and startsecs/stopwaitsecs: a start request not acknowledged '
          'is given up once the target tick counter exceeds the request counter by more than the tick margin, an acknowledged one after margin + '
          'ceil(secs/5); the only state that can wait for ever is RUNNING with wait_exit; same for stops; the bound ceil(secs/5)+2 <= secs/5+3 ticks; '
-         'only BACKOFF re-arms; DEFAULT_TICK_TIMEOUT and the tick period are regenerated from the source. ' + CMD_TIE,
+         'only BACKOFF re-arms; DEFAULT_TICK_TIMEOUT and the tick period are regenerated from the source; the target instance is lost: for every job, '
+         'plan and set of lost instances, after on_instances_invalidation no pending request and no planned command targets a lost instance '
+         '(C10_lost_target_current_dropped / _planned_retargeted / _after_invalidation; the time-outs are counted in the ticks of the TARGET, so this '
+         'is what keeps a request from waiting for ever). ' + CMD_TIE + ' A free-running closed loop of real instances with fake Supervisors '
+         '(harness/c16free.py) ends every schedule with a quiet phase and judges on the real objects that no Starter / Stopper job is still in progress.',
     note='Partial: that every request in flight is actually submitted to those decisions at each periodic check is carried by the correspondence and '
          'judged by the monitor (known finding: start-request-untracked - a job dropped by a re-entrant Commander.next leaves requests unfollowed); '
          'the loss of one or two target instances at any point of a job, re-joins and process removals are generated; two known findings on losses (lost-start-not-reported-'
-         'fatal, lost-stop-still-listed); defect repaired: c24ff19 (a request whose process was removed from the target raised at every tick and stopped the TICK). ' + CMD_TRUST,
+         'fatal, lost-stop-still-listed) and one of the free-running stage (stopping-entry-of-lost-instance, same root cause as C11 lose-while-only-stopping); '
+         'defects repaired: c24ff19 (a request whose process was removed from the target raised at every tick and stopped the TICK), 36715a1 (planned commands of a '
+         'non-distributed application kept a lost instance: the request was sent there and never timed out). The free-running liveness judges are a search over '
+         'finite schedules on fixed seed ranges, not a proof that the closed loop always quiesces. ' + CMD_TRUST,
     technique='Lean 4 proofs on the time-out decision functions + lock-step correspondence + Lean monitor on implementation traces',
     design='7 (C10)'),
  'C14': dict(
